@@ -18,8 +18,14 @@ class ScriptMismatch(Exception):
 
 
 def _rat(p):
+    if np.ndim(p) != 0:
+        return [0, 1]                   # vectorised call (array-valued parameter): not a modelled call
     fr = Fraction(float(p)).limit_denominator(100000)
     return [fr.numerator, fr.denominator]
+
+
+def _int(x):
+    return int(x) if np.ndim(x) == 0 else -1
 
 
 class Shim:
@@ -58,10 +64,14 @@ class Shim:
             out = self._orig["binomial"](n, p, size)
         else:
             v = self._next()
-            self._legal(v, size, 0, int(np.max(n)) + 1, "binomial")
+            if np.ndim(n) or np.ndim(p):
+                raise ScriptMismatch("binomial: vectorised call (array-valued parameters)")
+            self._legal(v, size, 0, int(n) + 1, "binomial")
             out = np.int64(v) if size is None else np.asarray(v, dtype=np.int64).reshape(size)
-        self.calls.append({"fn": "binomial", "n": int(n), "p": _rat(p), "a": 0, "size": sz,
-                           "out": int(out) if size is None else [int(x) for x in np.asarray(out).reshape(-1)]})
+        if self.script is None and size is None and (np.ndim(n) or np.ndim(p)):
+            sz = int(np.size(out))          # vectorised call: one outcome per parameter
+        self.calls.append({"fn": "binomial", "n": _int(n), "p": _rat(p), "a": 0, "size": sz,
+                           "out": int(out) if np.ndim(out) == 0 else [int(x) for x in np.asarray(out).reshape(-1)]})
         return out
 
     def poisson(self, lam=1.0, size=None):
@@ -70,10 +80,12 @@ class Shim:
             out = self._orig["poisson"](lam, size)
         else:
             v = self._next()
+            if np.ndim(lam):
+                raise ScriptMismatch("poisson: vectorised call (array-valued rate)")
             self._legal(v, size, 0, 1 << 40, "poisson")
             out = np.int64(v) if size is None else np.asarray(v, dtype=np.int64).reshape(size)
         # lam = n * p with p = 1/size : record n = round(lam * size)
-        n = int(round(float(lam) * max(sz, 1)))
+        n = int(round(float(lam) * max(sz, 1))) if np.ndim(lam) == 0 else -1
         self.calls.append({"fn": "poisson", "n": n, "p": [1, max(sz, 1)], "a": 0, "size": sz,
                            "out": int(out) if size is None else [int(x) for x in np.asarray(out).reshape(-1)]})
         return out
@@ -98,17 +110,19 @@ class Shim:
     def randint(self, low, high=None, size=None, dtype=int):
         if self.script is None:
             out = self._orig["randint"](low, high, size, dtype)
+        elif np.ndim(low) or np.ndim(high):
+            raise ScriptMismatch("randint: vectorised call (array-valued bounds)")
         else:
             v = self._next()
             lo_, hi_ = (0, int(low)) if high is None else (int(low), int(high))
             self._legal(v, size, lo_, hi_, "randint")
             out = np.int64(v) if size is None else np.asarray(v, dtype=np.int64).reshape(size)
-        a = int(low) if high is None else int(high) - int(low)
+        a = (_int(low) if high is None else _int(high) - _int(low)) if not (np.ndim(low) or np.ndim(high)) else -1
         if self.script is not None and self.randint_max and a > 0:
             top = (0 if high is None else int(low)) + a - 1               # a legal outcome of THIS call
             out = np.int64(top) if size is None else np.full(size, top, dtype=np.int64)
         self.calls.append({"fn": "randint", "n": 0, "p": [0, 1], "a": a, "size": 0 if size is None else int(np.prod(size)),
-                           "out": int(out) if size is None else [int(x) for x in np.asarray(out).reshape(-1)]})
+                           "out": int(out) if np.ndim(out) == 0 else [int(x) for x in np.asarray(out).reshape(-1)]})
         return out
 
     def normal(self, loc=0.0, scale=1.0, size=None):
